@@ -695,6 +695,10 @@ def _replay_cadence(cex, model, props, bad, tmp):
         want = [t for t in range(1, K + 1) if t % every == 0] + [K]
         if its != want and "C12" in props:
             bad.append(f"C12[every={every}]: checkpoints written at iterations {its}, expected {want}")
+        if "C12" in props and w.checkpoints and w.final is not None:
+            last = w.checkpoints[-1]
+            if last["x"].shape != np.asarray(w.final.x).shape or not np.array_equal(last["x"], np.asarray(w.final.x, float)):
+                bad.append(f"C12[every={every}]: the end-of-run checkpoint holds a population of {len(last['x'])} particles that is not the returned one ({len(w.final.x)})")
         info[f"every{every}"] = its
     return info
 
